@@ -27,6 +27,20 @@ for d in sorted(glob.glob(V + '/seeded/*/meta.json')):
     note = m.get('note', '')
     out.append("| %s %s | %s | %s |" % (m['seed_id'], note, det, first))
 out.append("")
+out.append("### 7.6 Checks as built (from the evidence files of the last quick run on /repo HEAD)\n")
+out.append("| property | level | clauses | evaluations | distinct non-trivial | known findings excluded | wall s |\n|---|---|---|---|---|---|---|")
+man = json.load(open(V + '/MANIFEST.json'))
+for c in man['checks']:
+    pid = c['property_id']
+    try:
+        ev = json.load(open(V + '/evidence/%s.json' % pid))
+    except Exception:
+        continue
+    cov = ev['coverage']
+    names = ", ".join(x['clause'] for x in cov.get('clauses', []))
+    exk = sum(sum(x.get('excluded_known', {}).values()) for x in cov.get('clauses', []))
+    out.append("| %s | %s | %s | %d | %d | %d | %.0f |" % (pid, ev['level'], names, cov['evaluations'], cov['distinct_nontrivial'], exk, ev['wall_s']))
+out.append("")
 text = "\n".join(out)
 p = V + '/DESIGN.md'
 s = open(p).read()
